@@ -65,6 +65,26 @@ var signDomains = []signDomain{
 
 const selector = "sel2026"
 
+// fieldset: which fields the signer is configured to sign. "default" leaves
+// the directives out; the expectation is then the list documented in
+// docs/reference/modifiers/dkim.md. "custom" spells both lists out.
+type fieldset struct {
+	Name     string
+	Oversign []string
+	Sign     []string
+	Config   string
+}
+
+var fieldsets = []fieldset{
+	{Name: "default",
+		Oversign: []string{"Subject", "To", "From", "Date", "MIME-Version", "Content-Type", "Content-Transfer-Encoding", "Reply-To", "Message-Id", "References", "Autocrypt", "Openpgp"},
+		Sign:     []string{"List-Id", "List-Help", "List-Unsubscribe", "List-Post", "List-Owner", "List-Archive", "Resent-To", "Resent-Sender", "Resent-Message-Id", "Resent-Date", "Resent-From", "Resent-Cc"}},
+	{Name: "custom",
+		Oversign: []string{"From", "Subject", "Date", "X-Custom", "Keywords"},
+		Sign:     []string{"To", "Cc", "Message-Id", "List-Id", "Resent-To", "Comments"},
+		Config:   "oversign_fields From Subject Date X-Custom Keywords\nsign_fields To Cc Message-Id List-Id Resent-To Comments\n"},
+}
+
 var algos = []string{"rsa2048", "ed25519"}
 var canons = []string{"relaxed", "simple"}
 
@@ -130,26 +150,31 @@ func newHarness(t *testing.T, r *rep.Reporter) *harness {
 	}
 	for _, algo := range algos {
 		dir := filepath.Join(root, algo)
+		// One key file per key type, shared by the signing domains (the first Init
+		// generates it, the others load it): RSA key generation is the dominant
+		// start-up cost and says nothing about the property.
 		for _, hc := range canons {
 			for _, bc := range canons {
-				mod, err := moddkim.New("modify.dkim", "c08-"+algo+"-"+hc+"-"+bc, nil, nil)
-				if err != nil {
-					t.Fatal(err)
+				for _, fs := range fieldsets {
+					mod, err := moddkim.New("modify.dkim", "c08-"+algo+"-"+hc+"-"+bc+"-"+fs.Name, nil, nil)
+					if err != nil {
+						t.Fatal(err)
+					}
+					cfg := fmt.Sprintf("domains %s\nselector %s\nkey_path %s/shared_{selector}.key\nnewkey_algo %s\nheader_canon %s\nbody_canon %s\n%s",
+						strings.Join(domArgs, " "), selector, dir, algo, hc, bc, fs.Config)
+					if err := mx.InitModule(mod, cfg, nil); err != nil {
+						t.Fatalf("c08: modify.dkim init: %v", err)
+					}
+					h.signers[algo+"/"+hc+"/"+bc+"/"+fs.Name] = mod.(*moddkim.Modifier)
 				}
-				cfg := fmt.Sprintf("domains %s\nselector %s\nkey_path %s/{domain}_{selector}.key\nnewkey_algo %s\nheader_canon %s\nbody_canon %s\n",
-					strings.Join(domArgs, " "), selector, dir, algo, hc, bc)
-				if err := mx.InitModule(mod, cfg, nil); err != nil {
-					t.Fatalf("c08: modify.dkim init: %v", err)
-				}
-				h.signers[algo+"/"+hc+"/"+bc] = mod.(*moddkim.Modifier)
 			}
 		}
 		kr := &keyResolver{txt: map[string][]string{}}
+		b, err := os.ReadFile(filepath.Join(dir, "shared_"+selector+".dns"))
+		if err != nil {
+			t.Fatalf("c08: published key record missing: %v", err)
+		}
 		for _, d := range signDomains {
-			b, err := os.ReadFile(filepath.Join(dir, d.U+"_"+selector+".dns"))
-			if err != nil {
-				t.Fatalf("c08: published key record missing: %v", err)
-			}
 			kr.txt[dnsKey(selector+"._domainkey."+d.A)] = []string{string(b)}
 		}
 		h.resolver[algo] = kr
@@ -181,6 +206,10 @@ type scenario struct {
 	SrvUTF8      bool
 	SrvPipe      bool
 	Big          bool
+	Fields       string // fieldset name
+	Latin1Header bool   // non-conformant 8-bit header bytes: observed, never judged
+	ForeignSig   bool   // an unverifiable signature of an earlier hop is already present
+	NullSender   bool
 }
 
 func (s scenario) shape(m *message) string {
@@ -191,7 +220,7 @@ func (s scenario) shape(m *message) string {
 		}
 	}
 	sort.Strings(fs)
-	return fmt.Sprintf("%s/%s/%s/eai=%v/%s/%s/%s/%s/%s", s.Algo, s.HC, s.BC, s.EAI, s.Domain.Kind, s.Variant, s.FailStage, s.Target, strings.Join(fs, ","))
+	return fmt.Sprintf("%s/%s/%s/%s/eai=%v/%s/%s/%s/%s/%s", s.Algo, s.HC, s.BC, s.Fields, s.EAI, s.Domain.Kind, s.Variant, s.FailStage, s.Target, strings.Join(fs, ","))
 }
 
 func genScenario(p *prng.R, i int, thorough bool) scenario {
@@ -200,6 +229,7 @@ func genScenario(p *prng.R, i int, thorough bool) scenario {
 	s.Algo = algos[i%2]
 	s.HC = canons[(i/2)%2]
 	s.BC = canons[(i/4)%2]
+	s.Fields = fieldsets[(i/8)%2].Name
 	s.EAI = p.Chance(2, 5)
 	s.Domain = signDomains[p.Weighted([]int{2, 2, 1})]
 	local := "sender"
@@ -229,6 +259,14 @@ func genScenario(p *prng.R, i int, thorough bool) scenario {
 	s.SrvUTF8 = s.EAI || p.Bool()
 	s.SrvPipe = p.Bool()
 	s.Big = thorough && p.Chance(1, 25)
+	s.Latin1Header = !s.EAI && p.Chance(1, 12)
+	s.ForeignSig = p.Chance(1, 8)
+	if !s.EAI && p.Chance(1, 15) {
+		// null reverse-path: the signer falls back to its first domain
+		s.NullSender = true
+		s.Sender = ""
+		s.Domain = signDomains[0]
+	}
 	return s
 }
 
@@ -386,10 +424,6 @@ func tail(b []byte) []byte {
 	return b
 }
 
-type gateTarget struct {
-	*mx.ScriptTarget
-}
-
 func dirEmpty(dir string) bool {
 	es, err := os.ReadDir(dir)
 	return err == nil && len(es) == 0
@@ -399,7 +433,7 @@ func (h *harness) runCase(c *rep.Case, i int) {
 	r := h.r
 	p := prng.New(r.Seed(), uint64(i), "c08")
 	sc := genScenario(p, i, r.Thorough())
-	msg := genMessage(p, sc.EAI, sc.Big)
+	msg := genMessage(p, sc.EAI, sc.Big, sc.Latin1Header, sc.ForeignSig)
 	shape := sc.shape(msg)
 	var feats []string
 	for f, on := range msg.Features {
@@ -425,7 +459,7 @@ func (h *harness) runCase(c *rep.Case, i int) {
 	// --- sign ---
 	meta := &module.MsgMetadata{ID: fmt.Sprintf("c08m%d", i), OriginalFrom: sc.Sender, DontTraceSender: true}
 	meta.SMTPOpts.UTF8 = sc.EAI
-	signer := h.signers[sc.Algo+"/"+sc.HC+"/"+sc.BC]
+	signer := h.signers[sc.Algo+"/"+sc.HC+"/"+sc.BC+"/"+sc.Fields]
 	st, err := signer.ModStateForMsg(ctx, meta)
 	if err != nil {
 		h.t.Fatalf("c08: ModStateForMsg: %v", err)
@@ -439,8 +473,8 @@ func (h *harness) runCase(c *rep.Case, i int) {
 		return
 	}
 	st.Close()
-	sigField := hdr.Get("DKIM-Signature")
-	if sigField == "" {
+	sigField := hdr.Get("DKIM-Signature") // Get returns the top-most field, which is where AddRaw puts the new one
+	if sigField == "" || (sc.ForeignSig && strings.Contains(sigField, "d=gone.example")) {
 		c.Violation("sign/no-signature-added/domain="+sc.Domain.Kind+fmt.Sprintf("/eai=%v", sc.EAI), "modify.dkim added no signature for sender "+sc.Sender, w)
 		c.Done(shape, true)
 		return
@@ -474,9 +508,21 @@ func (h *harness) runCase(c *rep.Case, i int) {
 		}
 		return &smtpd.Action{Code: 451, Enh: "4.3.0", Text: []string{"c08 scripted temporary failure"}}
 	}
-	srv, err := smtpd.New(smtpd.Config{SMTPUTF8: sc.SrvUTF8, EightBitMIME: sc.Srv8Bit, PIPELINING: sc.SrvPipe, Hostname: "nexthop.invalid", Script: script})
-	if err != nil {
-		h.t.Fatal(err)
+	// Other checks on this machine churn through the ephemeral port range; a
+	// failing bind is an environment problem, retried and then inconclusive.
+	var srv *smtpd.Server
+	for try := 0; ; try++ {
+		srv, err = smtpd.New(smtpd.Config{SMTPUTF8: sc.SrvUTF8, EightBitMIME: sc.Srv8Bit, PIPELINING: sc.SrvPipe, Hostname: "nexthop.invalid", Script: script})
+		if err == nil {
+			break
+		}
+		if try >= 200 {
+			c.Inconclusive("cannot listen on 127.0.0.1:0: " + err.Error())
+			c.Done(shape, false)
+			return
+		}
+		r.Count("listen_retries", 1)
+		time.Sleep(100 * time.Millisecond)
 	}
 	defer srv.Close()
 
@@ -574,21 +620,40 @@ func (h *harness) runCase(c *rep.Case, i int) {
 	}
 	defer closeQ1()
 
+	// The spool refusing a conformant, freshly signed message means the
+	// signature can never be verified at the next hop; an operating-system
+	// error underneath is an environment problem instead.
+	spoolErr := func(stage string, err error) {
+		var pe *os.PathError
+		if errors.As(err, &pe) {
+			c.Inconclusive("spool I/O error at " + stage + ": " + err.Error())
+			c.Done(shape, false)
+			return
+		}
+		w.Signed = clip(signed)
+		c.Violation("chain/queue-refuses-signed-message/"+stage, fmt.Sprintf("the queue refused the signed message at %s: %v", stage, err), w)
+		c.Done(shape, true)
+	}
 	d, err := q1.Start(ctx, meta, sc.Sender)
 	if err != nil {
-		h.t.Fatalf("c08: queue Start: %v", err)
+		spoolErr("start", err)
+		return
 	}
 	if err := d.AddRcpt(ctx, sc.Rcpt, smtp.RcptOptions{}); err != nil {
-		h.t.Fatalf("c08: queue AddRcpt: %v", err)
+		d.Abort(ctx)
+		spoolErr("rcpt", err)
+		return
 	}
 	if err := d.Body(ctx, hdr, body); err != nil {
-		h.t.Fatalf("c08: queue Body: %v", err)
+		d.Abort(ctx)
+		spoolErr("body", err)
+		return
 	}
 	if err := d.Commit(ctx); err != nil {
-		h.t.Fatalf("c08: queue Commit: %v", err)
+		spoolErr("commit", err)
+		return
 	}
 	r.Count("messages_spooled", 1)
-	tSpooled := time.Now()
 
 	waitFor := func(what string, cond func() bool) bool {
 		deadline := time.Now().Add(watchdog)
@@ -662,7 +727,6 @@ func (h *harness) runCase(c *rep.Case, i int) {
 	}
 	closeQ1()
 
-	r.Count("dbg_ms_deliver", time.Since(tSpooled).Milliseconds())
 	tx := committed()
 	payload := tx.Data
 	r.Count("payloads_captured", 1)
@@ -677,6 +741,7 @@ func (h *harness) runCase(c *rep.Case, i int) {
 	r.Count("variant_"+sc.Variant, 1)
 	r.Count("target_"+sc.Target, 1)
 	r.Count(fmt.Sprintf("combo_%s_%s_%s", sc.Algo, sc.HC, sc.BC), 1)
+	r.Count("fieldset_"+sc.Fields, 1)
 	if sc.EAI {
 		r.Count("eai_messages", 1)
 	}
@@ -687,6 +752,16 @@ func (h *harness) runCase(c *rep.Case, i int) {
 	lib := h.verifyLib(payload, &sc, wantD)
 	mad := h.verifyMaddy(payload, &sc, wantD)
 	w.Lib, w.Maddy = lib.Detail, mad.Detail
+	if sc.Latin1Header {
+		// outside "RFC 5322-conformant header": recorded, not judged
+		if lib.Pass && mad.Pass {
+			r.Count("observed_nonconformant_8bit_header_verifies", 1)
+		} else {
+			r.Count("observed_nonconformant_8bit_header_fails", 1)
+		}
+		c.Done(shape, false)
+		return
+	}
 	if !lib.Pass || !mad.Pass {
 		diffClass, diff := firstDiff(signed, payload)
 		w.Signed, w.Received, w.DiffAt = clip(signed), clip(payload), diff
@@ -712,16 +787,14 @@ func (h *harness) runCase(c *rep.Case, i int) {
 	r.Count("untampered_verified_by_both", 1)
 
 	// --- tamper drills ---
-	tT := time.Now()
-	h.tamper(c, &sc, payload, wantD, &w)
-	r.Count("dbg_ms_tamper", time.Since(tT).Milliseconds())
+	h.tamper(c, p, &sc, payload, wantD, &w)
 	if i < 4 {
 		r.Sample(map[string]any{"scenario": sc, "features": feats, "signature": sigField, "payload_bytes": len(payload)})
 	}
 	c.Done(shape, true)
 }
 
-func (h *harness) tamper(c *rep.Case, sc *scenario, payload []byte, wantD string, w *caseWitness) {
+func (h *harness) tamper(c *rep.Case, p *prng.R, sc *scenario, payload []byte, wantD string, w *caseWitness) {
 	r := h.r
 	fields, body, ok := splitPayload(payload)
 	if !ok {
@@ -749,15 +822,50 @@ func (h *harness) tamper(c *rep.Case, sc *scenario, payload []byte, wantD string
 		c.Inconclusive("payload splitter is not loss-free on this payload")
 		return
 	}
-	inH := map[string]int{}
-	var order []string
-	for _, k := range keys {
-		if inH[k] == 0 {
-			order = append(order, k)
+	// Which fields are "signed" / "over-signed": what the signer was configured
+	// to do, plus whatever the signature itself names in h=.
+	var fsCfg fieldset
+	for _, f := range fieldsets {
+		if f.Name == sc.Fields {
+			fsCfg = f
 		}
+	}
+	inH := map[string]int{}
+	for _, k := range keys {
 		inH[k]++
 	}
-	check := func(kind, key string, mutated []byte) {
+	present := func(k string) []int {
+		var idxs []int
+		for i, f := range fields {
+			if i != sigIdx && strings.EqualFold(f.Name, k) {
+				idxs = append(idxs, i)
+			}
+		}
+		return idxs
+	}
+	type want struct{ over bool }
+	wants := map[string]*want{}
+	var order []string
+	note := func(k string, over bool) {
+		lk := strings.ToLower(k)
+		if wants[lk] == nil {
+			wants[lk] = &want{}
+			order = append(order, lk)
+		}
+		if over {
+			wants[lk].over = true
+		}
+	}
+	for _, k := range fsCfg.Oversign {
+		note(k, true)
+	}
+	for _, k := range fsCfg.Sign {
+		note(k, false)
+	}
+	for _, k := range keys {
+		note(k, inH[k] > len(present(k)))
+	}
+	check := func(kind, key string, over bool, mutated []byte) {
 		r.Count("tamper_"+kind, 1)
 		lib := h.verifyLib(mutated, sc, wantD)
 		mad := h.verifyMaddy(mutated, sc, wantD)
@@ -772,44 +880,51 @@ func (h *harness) tamper(c *rep.Case, sc *scenario, payload []byte, wantD string
 			ww.Tamper = kind + " " + key
 			ww.Received = clip(mutated)
 			ww.Lib, ww.Maddy = lib.Detail, mad.Detail
-			over := "signed"
-			if inH[key] > countFields(fields, key, sigIdx) {
-				over = "over-signed"
+			cls := "signed"
+			if over {
+				cls = "over-signed"
 			}
-			c.Violation(fmt.Sprintf("tamper-still-verifies/%s/%s-field/%s/header=%s", kind, over, who, sc.HC),
-				fmt.Sprintf("%s of signed field %q at the next hop still verifies (go-msgauth: %s; check.dkim: %s)", kind, key, lib.Detail, mad.Detail), ww)
+			cov := "named-in-h"
+			if inH[key] == 0 {
+				cov = "missing-from-h"
+			}
+			c.Violation(fmt.Sprintf("tamper-still-verifies/%s/%s-field/%s/%s/header=%s", kind, cls, cov, who, sc.HC),
+				fmt.Sprintf("%s of %s field %q at the next hop still verifies (h= names it %d times, message has %d; go-msgauth: %s; check.dkim: %s)", kind, cls, key, inH[key], len(present(key)), lib.Detail, mad.Detail), ww)
 		}
 	}
 	for _, k := range order {
-		var idxs []int
-		for i, f := range fields {
-			if i != sigIdx && strings.EqualFold(f.Name, k) {
-				idxs = append(idxs, i)
-			}
-		}
-		present := len(idxs)
-		if present > 0 {
+		idxs := present(k)
+		n := len(idxs)
+		over := wants[k].over
+		if n > 0 {
 			// remove the bottom-most and (if several) the top-most instance
-			check("remove", k, joinPayload(without(fields, idxs[present-1]), body))
-			if present > 1 {
-				check("remove", k, joinPayload(without(fields, idxs[0]), body))
+			check("remove", k, over, joinPayload(without(fields, idxs[n-1]), body))
+			if n > 1 {
+				check("remove", k, over, joinPayload(without(fields, idxs[0]), body))
 			}
-			for _, ix := range []int{idxs[0], idxs[present-1]} {
+			for _, ix := range []int{idxs[0], idxs[n-1]} {
 				mf := append([]rawField(nil), fields...)
 				mf[ix] = altered(fields[ix])
-				check("alter", k, joinPayload(mf, body))
-				if present == 1 {
+				check("alter", k, over, joinPayload(mf, body))
+				if n == 1 {
 					break
 				}
 			}
 		}
-		if inH[k] > present {
-			// over-signed: an added instance must break the signature wherever it is put
-			inj := rawField{Name: k, Raw: []byte(k + ": injected@attacker.example\r\n")}
-			top := append([]rawField{inj}, fields...)
-			check("add", k, joinPayload(top, body))
-			bottom := append(append([]rawField(nil), fields...), inj)
-			check("add", k, joinPayload(bottom, body))
+		if over {
+			// an added instance must break the signature wherever it is put
+			name := k
+			if n > 0 {
+				name = fields[idxs[0]].Name
+			}
+			inj := rawField{Name: name, Raw: []byte(name + ": injected@attacker.example\r\n")}
+			top := p.Bool()
+			if top || r.Thorough() {
+				check("add", k, over, joinPayload(append([]rawField{inj}, fields...), body))
+			}
+			if !top || r.Thorough() {
+				check("add", k, over, joinPayload(append(append([]rawField(nil), fields...), inj), body))
+			}
 		} else {
 			r.Count("signed_not_oversigned_fields_seen", 1)
 		}
@@ -827,7 +942,6 @@ func countFields(fields []rawField, key string, skip int) int {
 	return n
 }
 
-var _ = errors.New
 
 func TestVerif(t *testing.T) {
 	r := rep.Open("C08")
@@ -838,11 +952,9 @@ func TestVerif(t *testing.T) {
 			watchdog = n
 		}
 	}
-	t0 := time.Now()
 	h := newHarness(t, r)
-	r.Count("dbg_ms_setup", time.Since(t0).Milliseconds())
 	defer os.RemoveAll(h.keyRoot)
-	n := r.N(240, 10000)
+	n := r.N(400, 10000)
 	for i := 0; i < n; i++ {
 		r.Run(i, fmt.Sprintf("msg-%d", i), func(c *rep.Case) { h.runCase(c, i) })
 	}
